@@ -51,7 +51,10 @@ fn convert(value: f64, is_1904: bool, whole: Option<i64>) -> Result<Option<Naive
         let edt = ExcelDateTime::new(value, ExcelDateTimeType::DateTime, is_1904);
         let a = edt.as_datetime();
         let cell = Data::DateTime(edt);
-        let mut paths = vec![("Data::DateTime", cell.as_datetime()), ("DataRef::DateTime", DataRef::DateTime(edt).as_datetime())];
+        // (the calendar reading of a serial does not depend on whether its format is a date or an elapsed-time one)
+        let as_delta = ExcelDateTime::new(value, ExcelDateTimeType::TimeDelta, is_1904);
+        let mut paths = vec![("Data::DateTime", cell.as_datetime()), ("DataRef::DateTime", DataRef::DateTime(edt).as_datetime()),
+                             ("ExcelDateTime(TimeDelta)", as_delta.as_datetime()), ("Data::DateTime(TimeDelta)", Data::DateTime(as_delta).as_datetime())];
         if !is_1904 {
             paths.push(("Data::Float", Data::Float(value).as_datetime()));
             paths.push(("DataRef::Float", DataRef::Float(value).as_datetime()));
